@@ -189,7 +189,11 @@ func vBatchRun(n, badPos, badKind, variant int) *vBatchResult {
 	vCutBatch()
 	vPrune(false)
 	r := &vBatchResult{}
-	es := vBatchEntries(n, badPos, badKind, variant)
+	ev := variant
+	if ev == 3 {
+		ev = 2
+	}
+	es := vBatchEntries(n, badPos, badKind, ev)
 	r.es = es
 	zip := vBool("zip215")
 	r.zip = zip
@@ -203,6 +207,10 @@ func vBatchRun(n, badPos, badKind, variant int) *vBatchResult {
 		ctx = "verif-ctx"
 		opts.Context = ctx
 		opts.Hash = crypto.SHA512
+	case 3:
+		// Ed25519ph with the empty context: dom2 is still hashed (flag 1, length 0)
+		opts.Hash = crypto.SHA512
+		variant = 2
 	}
 	r.ctx = ctx
 	pks := make([]PublicKey, n)
